@@ -525,8 +525,8 @@ func TestCheck(t *testing.T) {
 	// R6: two transmissions of one bundle fail at the same moment (lost-update interleaving forced at the hook)
 	for _, a := range []string{"epidemic", "prophet", "spray", "sensor-mule"} {
 		a := a
-		r.Group("concurrent-failure-"+a, r.Pick(6, 60), func(i int, rng *report.Rand) {
-			err := bubble.Run(nil, func(t *testing.T) { concurrentFailure(r, a, 2+i%3, rng) })
+		r.Group("concurrent-failure-"+a, r.Pick(12, 120), func(i int, rng *report.Rand) {
+			err := bubble.Run(nil, func(t *testing.T) { concurrentFailure(r, a, 2+i%7, rng) })
 			if err != nil {
 				r.Violation("c05.node-deadlock-or-panic:"+errClass(err), err.Error(), map[string]interface{}{"algorithm": a, "workload": "concurrent-failure"})
 			}
@@ -549,7 +549,7 @@ func errClass(err error) string {
 // the hook between read and write-back of the per-bundle bookkeeping holds the first arrival until a partner arrives.
 func concurrentFailure(r *report.Run, algo string, k int, rng *report.Rand) {
 	conf := nodesim.RoutingConf(algo)
-	conf.SprayConf.Multiplicity = 8
+	conf.SprayConf.Multiplicity = 12 // more copies than peers: every peer is offered the bundle
 	s, err := nodesim.New(nodesim.Config{Routing: conf})
 	if err != nil {
 		r.Violation("c05.open-failed", err.Error(), nil)
